@@ -151,6 +151,7 @@ Definition r_pay_prove (pk : pkey K) (rp : rparams K) (hr gr : Z) (t1 t2 : Z) (o
 
 (** challenge inputs of the library types *)
 Definition r_chunks_pk (pk : pkey K) : list Z := enc_atoms (pk_chunks pk).
+Definition r_pk_to_bytes (pk : pkey K) : list Z := enc_atoms (pk_to_bytes_atoms pk).
 Definition r_chunks_cp (g : Z) (t : list Z) : list Z :=
   enc_atoms (if g =? 1 then cp1_chunks (mk_cpl t) else cp2_chunks (mk_cpl t)).
 Definition r_chunks_sp (t : list Z) : list Z := enc_atoms (sp_chunks (mk_sp t)).
@@ -267,3 +268,18 @@ From ZK Require Import Model.Base64.
 Definition r_cid_print (bs : list Z) : list Z := cid_print bs.
 Definition r_cid_parse (cs : list Z) : list Z :=
   match cid_parse cs with CidOk bs => 1 :: bs | CidIncorrectLength n => [2; n] | CidDecodeError => [3] end.
+
+(** the two parties composed (Model/Protocol.v): one whole payment - Ready::start with its proof, allow_payment, lock,
+    complete_payment, unlock - with the Fiat-Shamir hash given as a table from (encoded transcript) to challenge, the
+    transcripts being the ones the model itself produces (r_pay_transcript) and the challenges the ones the code derived *)
+From ZK Require Import Model.Merchant Model.Protocol.
+Definition table_chal (tbl : list (list Z * Z)) (atoms : list (atom K)) : K :=
+  match find (fun e => list_zeqb (fst e) (enc_atoms atoms)) tbl with Some e => fq (snd e) | None => fq 0 end.
+Definition mk_m (sk : skey K) (pk : pkey K) (hr gr : Z) (rp : rparams K) : mconfig K := mkM sk pk (fq hr) (fq gr) rp.
+Definition r_full_payment (m : mconfig K) (tbl : list (list Z * Z)) (st : stage K) (a : Z) (nonce' lock' : Z) (d : pdraws K)
+           (ctx : list Z) (u1 u2 : Z) : list Z :=
+  match full_payment closeK (table_chal tbl) m st a (mkSD (fq nonce') (fq lock') d) ctx (fq u1) (fq u2) with
+  | PDone st' => 1 :: enc_stage st'
+  | PAmountRefused st' e => 2 :: enc_out (OError e) ++ enc_stage st'
+  | PStuck k st' => [3; Z.of_nat k]
+  end.
